@@ -28,7 +28,14 @@ use vh::{Args, Report, Rng};
 const ISSUER: &str = "did:example:issuer";
 const ISSUER2: &str = "did:example:issuer2";
 const FOREIGN: &str = "did:example:foreign";
+const ISSUER_WEB: &str = "did:web:issuer"; // same method-specific id as ISSUER under another DID method: another DID
+const REGISTRY: &str = "did:example:registry";
 const REVOKED: [u32; 4] = [3, 99, 65_536, 70_000];
+/// Indices the scenarios probe that are NOT set in the issuer's own bitmap service.
+const FREE: [u32; 4] = [0, 5, 65_535, 1_000_000];
+const NEIGHBOURS: [u32; 8] = [2, 4, 98, 100, 65_535, 65_537, 69_999, 70_001];
+const DOC_VARIANTS: u8 = 8;
+const ISSUER_FORMS: u8 = 14;
 
 fn k1() -> Key {
   Key::ed(1)
@@ -45,18 +52,51 @@ fn k_other_doc() -> Key {
 fn k_stranger() -> Key {
   Key::ed(99)
 }
+fn k_web_doc() -> Key {
+  Key::ed(5)
+}
+
+fn bitmap_service(id: &str, set: &[u32]) -> Value {
+  let mut bitmap = RevocationBitmap::new();
+  for i in set {
+    bitmap.revoke(*i);
+  }
+  let svc = bitmap.to_service(DIDUrl::parse(id).unwrap()).expect("bitmap service");
+  serde_json::to_value(&svc).unwrap()
+}
+
+/// A RevocationBitmap2022 service that disagrees with the issuer's own one at every probed index.
+fn complement_service(id: &str) -> Value {
+  let set: Vec<u32> = FREE.iter().chain(NEIGHBOURS.iter()).copied().collect();
+  bitmap_service(id, &set)
+}
 
 fn issuer_doc(did: &str, key1: &Key, with_bitmap: bool) -> CoreDocument {
-  let mut bitmap = RevocationBitmap::new();
-  for i in REVOKED {
-    bitmap.revoke(i);
-  }
-  let mut services: Vec<Value> = Vec::new();
-  if with_bitmap {
-    let svc = bitmap.to_service(DIDUrl::parse(format!("{}#rev", did)).unwrap()).expect("bitmap service");
-    services.push(serde_json::to_value(&svc).unwrap());
-  }
-  services.push(json!({"id": format!("{}#linked", did), "type": "LinkedDomains", "serviceEndpoint": "https://example.com/"}));
+  issuer_doc_variant(did, key1, if with_bitmap { 0 } else { 255 })
+}
+
+/// The service list of the issuer document (the verification methods are the same in every variant):
+/// 0 own `<did>#rev` bitmap + `<did>#linked`; 255 no bitmap service at all;
+/// 1 a bitmap service `did:example:registry#rev` (same fragment, another DID, disagreeing at every probed index) listed BEFORE the own one;
+/// 2 the same listed AFTER; 3 a LinkedDomains service `did:example:registry#rev` listed before; 4 the own bitmap service ABSENT, only
+/// `did:example:registry#rev`; 5 an empty bitmap `did:example:registry#rev` before; 6 the disagreeing bitmap under `did:web:<same id>#rev`
+/// before; 7 a bitmap service `did:example:registry#linked` before the own `#linked` (LinkedDomains).
+/// Service ids with a DID other than the document's are legal in a DID document; they are placed through the JSON form.
+fn issuer_doc_variant(did: &str, key1: &Key, variant: u8) -> CoreDocument {
+  let own = bitmap_service(&format!("{}#rev", did), &REVOKED);
+  let linked = json!({"id": format!("{}#linked", did), "type": "LinkedDomains", "serviceEndpoint": "https://example.com/"});
+  let reg_rev = format!("{}#rev", REGISTRY);
+  let services: Vec<Value> = match variant {
+    0 => vec![own, linked],
+    1 => vec![complement_service(&reg_rev), own, linked],
+    2 => vec![own, linked, complement_service(&reg_rev)],
+    3 => vec![json!({"id": reg_rev, "type": "LinkedDomains", "serviceEndpoint": "https://registry.example.com/"}), own, linked],
+    4 => vec![complement_service(&reg_rev), linked],
+    5 => vec![bitmap_service(&reg_rev, &[]), own, linked],
+    6 => vec![complement_service(&format!("{}#rev", ISSUER_WEB)), own, linked],
+    7 => vec![complement_service(&format!("{}#linked", REGISTRY)), own, linked],
+    _ => vec![linked],
+  };
   let j = json!({
     "id": did,
     "verificationMethod": [method_json(&format!("{}#k1", did), did, key1), method_json(&format!("{}#kf", FOREIGN), FOREIGN, &kf())],
@@ -107,6 +147,7 @@ struct Plan {
   expiry_in_vc_only: bool, // carry the expiration as vc.expirationDate without an exp claim (a form foreign issuers produce)
   wall_clock: bool,        // leave both date bounds unset: the library then uses the current time
   iat: Option<i64>,        // an additional `iat` claim at nbf + this many seconds (nbf stays the issuance date)
+  doc_variant: u8,         // service list of the issuer document, see issuer_doc_variant; only 4 (own bitmap service absent) changes a verdict
 }
 
 const BOUND_ISS: i64 = 1_700_000_000;
@@ -131,7 +172,7 @@ impl Plan {
       subject_id: true,
       non_transferable: *rng.pick(&[None, Some(true), Some(false)]),
       status: *rng.pick(&[0u8, 1, 1, 9, 10]),
-      status_index: *rng.pick(&[0u32, 5, 65_535, 1_000_000]),
+      status_index: *rng.pick(&FREE),
       status_mode: rng.below(3) as u8,
       fail_fast: rng.bool(),
       rich: rng.chance(1, 3),
@@ -140,7 +181,18 @@ impl Plan {
       expiry_in_vc_only: false,
       wall_clock: false,
       iat: *rng.pick(&[None, None, Some(-2_000_000_000i64), Some(-1), Some(3), Some(2_000_000_000)]),
+      doc_variant: *rng.pick(&[0u8, 0, 0, 0, 0, 1, 1, 2, 3, 5, 6, 7]),
     }
+  }
+
+  /// Sets the status form together with an index that suits it.
+  fn set_status(&mut self, rng: &mut Rng, status: u8) {
+    self.status = status;
+    self.status_index = match status {
+      2 => *rng.pick(&REVOKED),
+      9 => *rng.pick(&NEIGHBOURS),
+      _ => *rng.pick(&FREE),
+    };
   }
 
   fn scope_value(&self) -> Option<MethodScope> {
@@ -235,11 +287,15 @@ impl Plan {
     if !holder_ok {
       f.insert(U::SubjectHolder);
     }
+    // The status is judged against the service its id names: `did:example:issuer#rev` of the issuer document. Other services of the
+    // document (whatever their fragment, type or position) do not take part; if that service is absent nothing shows the index unset.
+    let own_service_present = self.doc_variant != 4;
     let status_ok = if self.status_mode == 2 {
       true
     } else {
       match self.status {
-        0 | 1 | 9 | 10 => true,
+        0 => true,
+        1 | 9 | 10 => own_service_present,
         3 => self.status_mode == 1,
         _ => false,
       }
@@ -290,6 +346,12 @@ fn build(rng: &mut Rng, p: &Plan) -> Built {
     5 => "did:example:issuer#k1", // DID URLs of the signer are not its DID
     6 => "did:example:issuer?versionId=1",
     7 => "did:example:issuer/issuers/14",
+    8 => ISSUER_WEB,               // same method-specific id, another DID method
+    9 => "did:examples:issuer",    // same method-specific id, method name one letter longer
+    10 => "did:example:issue",     // same method, id one letter shorter
+    11 => ISSUER2,                 // same method, id one letter longer (the DID of another issuer)
+    12 => "did:example:web:issuer", // same method, id with one more leading segment
+    13 => "did:issuer:example",    // method name and id swapped
     _ => ISSUER,
   };
   let issuance = BOUND_ISS + p.issuance_delta;
@@ -505,7 +567,7 @@ fn mutate_one(rng: &mut Rng, p: &mut Plan, which: u64) {
     2 => p.method_id_override = 2 + rng.below(3) as u8,
     3 => p.scope = 1 + rng.below(6) as u8,
     4 => p.kid = 4,
-    5 => p.issuer_claim = *rng.pick(&[1u8, 2, 4, 4, 5, 6, 7]),
+    5 => p.issuer_claim = *rng.pick(&[1u8, 2, 4, 4, 5, 6, 7, 8, 8, 8, 9, 10, 11, 12, 13]),
     6 => {
       p.nonce_hdr = rng.below(3) as u8;
       p.nonce_opt = (p.nonce_hdr + 1 + rng.below(2) as u8) % 3;
@@ -557,10 +619,27 @@ fn mutate_one(rng: &mut Rng, p: &mut Plan, which: u64) {
       p.expiry_in_vc_only = true;
       p.expiry = Some(*rng.pick(&[-1i64, -86_400, -1_000_000_000, 0, 1]));
     }
+    18 => {
+      // the service the status names is absent from the issuer document; a bitmap service with the same fragment under another DID is listed
+      p.doc_variant = 4;
+      if !matches!(p.status, 1 | 2 | 9 | 10) || rng.chance(1, 3) {
+        let st = *rng.pick(&[1u8, 2, 9, 10]);
+        p.set_status(rng, st);
+      }
+    }
+    19 => {
+      // a bitmap status evaluated against a document that lists further services sharing a fragment with the named one
+      // (a legal variation, not a falsification)
+      p.doc_variant = *rng.pick(&[1u8, 1, 2, 3, 5, 6, 7]);
+      if p.status == 0 {
+        let st = *rng.pick(&[1u8, 9, 10]);
+        p.set_status(rng, st);
+      }
+    }
     _ => {
       // neighbour of a revoked index stays valid
       p.status = 9;
-      p.status_index = *rng.pick(&[2u32, 4, 98, 100, 65_535, 65_537, 69_999, 70_001]);
+      p.status_index = *rng.pick(&NEIGHBOURS);
     }
   }
 }
@@ -570,6 +649,8 @@ struct Cx {
   doc: CoreDocument,
   doc_no_bitmap: CoreDocument,
   doc2: CoreDocument,
+  doc_web: CoreDocument,             // did:web:issuer, own key
+  doc_variants: Vec<CoreDocument>,   // ISSUER with the service lists of issuer_doc_variant, index = Plan::doc_variant
 }
 
 impl Cx {
@@ -579,8 +660,21 @@ impl Cx {
     let (s_false, _key) = p.s_conditions();
     let mut u_false = p.u_conditions();
     // status variant 7 (missing service) can also be realised with a document that has no bitmap service at all
-    let use_no_bitmap_doc = p.status == 7 && rng.bool();
-    let doc = if use_no_bitmap_doc { &self.doc_no_bitmap } else { &self.doc };
+    let use_no_bitmap_doc = p.status == 7 && p.doc_variant == 0 && rng.bool();
+    let doc = if use_no_bitmap_doc { &self.doc_no_bitmap } else { &self.doc_variants[p.doc_variant as usize] };
+    // scenarios in which one dropped conjunct alone would flip the verdict
+    if s_false.len() == 1 && u_false.is_empty() && p.exp_unrepresentable.is_none() && p.nbf_unrepresentable.is_none() {
+      self.rep.inc("sole_false_signature_side");
+      if s_false[0] == "S5-issuer-equals-method-did" {
+        self.rep.inc("sole_false_issuer_identity");
+        if p.issuer_claim == 8 || p.issuer_claim == 9 {
+          self.rep.inc("sole_false_issuer_did_method_name");
+        }
+      }
+    }
+    if s_false.is_empty() && p.doc_variant != 0 && p.status_mode != 2 && matches!(p.status, 1 | 2 | 9 | 10) {
+      self.rep.inc("status_with_same_fragment_services");
+    }
     if s_false.iter().any(|s| *s == "S5-issuer-equals-method-did") {
       // status evaluation is never reached
       u_false.clear();
@@ -594,13 +688,15 @@ impl Cx {
     let case = json!({
       "plan": format!("{:?}", p), "token": b.token, "falsified_signature_side": s_false, "falsified_credential_side": format!("{:?}", u_false),
       "options": serde_json::to_value(&b.options).unwrap_or(Value::Null), "fail_fast": p.fail_fast, "document_without_bitmap_service": use_no_bitmap_doc,
+      "issuer_document_services": if p.doc_variant != 0 && !use_no_bitmap_doc { serde_json::to_value(doc.service()).unwrap_or(Value::Null) } else { Value::Null },
     });
     let validator = JwtCredentialValidator::with_signature_verifier(EdDSAJwsVerifier::default());
     let jwt_obj = Jwt::new(b.token.clone());
     let res = catch(|| validator.validate::<_, Object>(&jwt_obj, doc, &b.options, fail_fast));
     let vector = format!(
-      "S:{}|U:{:?}|m{}|kid{}|ovr{}|sc{}|iss{}|st{}:{}|h{}|ff{}",
-      s_false.join("+"), u_false, p.method, p.kid, p.method_id_override, p.scope, p.issuer_claim, p.status, p.status_mode, p.holder_mode, p.fail_fast
+      "S:{}|U:{:?}|m{}|kid{}|ovr{}|sc{}|iss{}|st{}:{}|h{}|ff{}|d{}",
+      s_false.join("+"), u_false, p.method, p.kid, p.method_id_override, p.scope, p.issuer_claim, p.status, p.status_mode, p.holder_mode, p.fail_fast,
+      if matches!(p.status, 1 | 2 | 7 | 8 | 9 | 10) { p.doc_variant } else { 0 }
     );
     self.rep.distinct("nontrivial", &vector);
     self.rep.distinct("condition_vectors", &format!("{}|{:?}", s_false.join("+"), u_false));
@@ -736,30 +832,48 @@ impl Cx {
     self.rep.eval();
     // variants: 0 honest issuer1; 1 honest issuer2; 2 kid of issuer2 but credential issuer = issuer1 (signed by issuer2's key);
     // 3 kid of issuer1 signed by issuer2 key
-    let v = rng.below(4);
+    // 4-8: the other trusted document is did:web:issuer (the same method-specific id under another DID method, own key):
+    // 4 honest did:web issuer; 5 kid of did:example:issuer, signed with its key, credential issuer did:web:issuer; 6 the converse;
+    // 7 kid and issuer did:web:issuer but signed with the key of did:example:issuer; 8 honest did:example issuer next to it
+    let v = rng.below(9);
     let (kid_did, cred_issuer, signer) = match v {
       0 => (ISSUER, ISSUER, k1()),
       1 => (ISSUER2, ISSUER2, k_other_doc()),
       2 => (ISSUER2, ISSUER, k_other_doc()),
-      _ => (ISSUER, ISSUER, k_other_doc()),
+      3 => (ISSUER, ISSUER, k_other_doc()),
+      4 => (ISSUER_WEB, ISSUER_WEB, k_web_doc()),
+      5 => (ISSUER, ISSUER_WEB, k1()),
+      6 => (ISSUER_WEB, ISSUER, k_web_doc()),
+      7 => (ISSUER_WEB, ISSUER_WEB, k1()),
+      _ => (ISSUER, ISSUER, k1()),
     };
+    let honest = matches!(v, 0 | 1 | 4 | 8);
     let spec = CredSpec::minimal(cred_issuer, Some("did:example:subject"), BOUND_ISS - 10);
     let claims = Value::Object(spec.claims_json(&Map::new()));
     let header = json!({"alg":"EdDSA","kid":format!("{}#k1", kid_did),"typ":"JWT"});
     let token = jwt(&header, &claims, &signer);
-    let docs = [self.doc.clone(), self.doc2.clone()];
+    let mut docs = if v >= 4 { vec![self.doc.clone(), self.doc_web.clone()] } else { vec![self.doc.clone(), self.doc2.clone()] };
+    if rng.bool() {
+      docs.reverse();
+    }
+    if rng.chance(1, 3) {
+      // a third trusted issuer does not change anything
+      let extra = if v >= 4 { self.doc2.clone() } else { self.doc_web.clone() };
+      docs.insert(rng.usize(docs.len() + 1), extra);
+    }
+    let trusted: Vec<String> = docs.iter().map(|d| d.id().to_string()).collect();
     let validator = JwtCredentialValidator::with_signature_verifier(EdDSAJwsVerifier::default());
-    let case = json!({"two_issuers_variant": v, "token": token});
+    let case = json!({"two_issuers_variant": v, "token": token, "trusted_issuers": trusted, "kid_did": kid_did, "credential_issuer": cred_issuer});
     let r = catch(|| validator.verify_signature::<_, Object>(&Jwt::new(token.clone()), &docs, &JwsVerificationOptions::default()).map(|d| d.credential));
     self.rep.distinct("nontrivial", &format!("two-issuers|{}", v));
     match r {
       Err(pn) => self.rep.violation(&format!("verify_signature-panic@{}", pn.file_only()), &pn.msg, case),
       Ok(Ok(cred)) => {
         self.rep.inc("accepted");
-        if v >= 2 {
+        if !honest {
           self.rep.violation(
-            if v == 2 { "accepted-although-false:issuer-differs-from-signing-document" } else { "accepted-although-false:S1-signature" },
-            "verify_signature accepted a credential signed by another trusted issuer's key",
+            if kid_did != cred_issuer { "accepted-although-false:issuer-differs-from-signing-document" } else { "accepted-although-false:S1-signature" },
+            &format!("verify_signature over trusted issuers {:?} accepted a credential with kid DID {}, issuer {} that was signed by another trusted issuer's key or names another issuer", trusted, kid_did, cred_issuer),
             case,
           );
         } else if cred.issuer.url().as_str() != cred_issuer {
@@ -768,7 +882,7 @@ impl Cx {
       }
       Ok(Err(_)) => {
         self.rep.inc("rejected");
-        if v < 2 {
+        if honest {
           self.rep.violation("rejected-although-all-hold", "verify_signature rejected an honest credential of a trusted issuer", case);
         }
       }
@@ -784,12 +898,18 @@ fn main() {
     doc: issuer_doc(ISSUER, &k1(), true),
     doc_no_bitmap: issuer_doc(ISSUER, &k1(), false),
     doc2: issuer_doc(ISSUER2, &k_other_doc(), true),
+    doc_web: issuer_doc(ISSUER_WEB, &k_web_doc(), true),
+    doc_variants: (0..DOC_VARIANTS).map(|v| issuer_doc_variant(ISSUER, &k1(), v)).collect(),
   };
   cx.rep.rule(
     "scenarios constructed by the harness: start from an all-conditions-true plan (random method, scope, kid/method-id form, issuer form, \
      nonce, boundary timestamps, holder mode, status form, status mode, fail-fast mode, optional rich credential) and falsify none, one, two \
-     or a random subset of the 12 conditions through every defect variant; plus verify_signature over two trusted issuers. distinct = \
-     (falsified-condition vector, method, kid form, override, scope, issuer form, status form x mode, holder mode, fail-fast)",
+     or a random subset of the 12 conditions through every defect variant (issuer forms include DIDs that differ from the signing \
+     document's in the method name only / the id only; issuer documents may list further services that share the fragment of the \
+     service the status names under another DID, before or after it, of the same or another type, or instead of it); plus \
+     verify_signature over two or three trusted issuers (incl. the same id under two DID methods), an issuer-form x status table and a \
+     document-service-list x status table. distinct = \
+     (falsified-condition vector, method, kid form, override, scope, issuer form, status form x mode, holder mode, fail-fast, service list)",
   );
   let mut rng = args.rng(2);
   let n = (if args.thorough { 12_000_000u64 } else { 8_000 } * scale / 1000 / args.nshards).max(60);
@@ -798,11 +918,11 @@ fn main() {
     match i % 8 {
       0 => {}
       1 | 2 | 3 => {
-        let w = rng.below(18);
+        let w = rng.below(20);
         mutate_one(&mut rng, &mut p, w);
       }
       4 | 5 => {
-        let (a, b) = (rng.below(18), rng.below(18));
+        let (a, b) = (rng.below(20), rng.below(20));
         mutate_one(&mut rng, &mut p, a);
         mutate_one(&mut rng, &mut p, b);
       }
@@ -815,7 +935,7 @@ fn main() {
         }
       }
       _ => {
-        for w in 0..18 {
+        for w in 0..20 {
           if rng.chance(1, 5) {
             mutate_one(&mut rng, &mut p, w);
           }
@@ -848,6 +968,51 @@ fn main() {
           }
         }
         cx.rep.inc("u_table_rows");
+        cx.scenario(&mut rng, &p);
+      }
+    }
+  }
+  // issuer-form table: every issuer form x (no status | unsupported status skipped | bitmap status with SkipAll), everything else true.
+  // Only forms 0 and 3 name the DID of the signing method.
+  let full = scale >= 1000;
+  let mut k = 0u64;
+  for form in 0..ISSUER_FORMS {
+    for (col, (status, mode)) in [(0u8, 0u8), (3, 1), (1, 2), (0, 1)].into_iter().enumerate() {
+      if !full && col != 0 {
+        continue;
+      }
+      k += 1;
+      if !args.mine(k) {
+        continue;
+      }
+      let mut p = Plan::all_good(&mut rng);
+      p.issuer_claim = form;
+      p.set_status(&mut rng, status);
+      p.status_mode = mode;
+      p.doc_variant = 0;
+      p.fail_fast = k % 2 == 0;
+      cx.rep.inc("issuer_table_rows");
+      cx.scenario(&mut rng, &p);
+    }
+  }
+  // service-list table: every service list of the issuer document x status form that names a service x Strict/SkipUnsupported
+  for variant in 0..DOC_VARIANTS {
+    for status in [1u8, 2, 9, 10, 7, 8] {
+      for mode in [0u8, 1] {
+        if !full && (mode != 0 || status > 2) {
+          continue;
+        }
+        k += 1;
+        if !args.mine(k) {
+          continue;
+        }
+        let mut p = Plan::all_good(&mut rng);
+        p.issuer_claim = if k % 3 == 0 { 3 } else { 0 };
+        p.set_status(&mut rng, status);
+        p.status_mode = mode;
+        p.doc_variant = variant;
+        p.fail_fast = k % 2 == 0;
+        cx.rep.inc("service_list_table_rows");
         cx.scenario(&mut rng, &p);
       }
     }
